@@ -37,7 +37,7 @@ PROPS['C06'] = {
 
 PROPS['C03'] = {
     'kani': {
-        'quick': [krun(['c03::q::', 'c15::q::from_heap::'], timeout=900, bounds='N <= 4 (iterator ops: every (front,back) position and one of 10 operations symbolic, nth argument any usize); functional/conversions N in {0,1,3,4}; split/concat/remove/flatten/native on the listed (N,K) / (N,M) instantiations')],
+        'quick': [krun(['c03::q::', 'c03::chains::', 'c15::q::from_heap::'], timeout=900, bounds='N <= 4 (iterator ops: every (front,back) position and one of 10 operations symbolic, nth argument any usize); functional/conversions N in {0,1,3,4}; split/concat/remove/flatten/native on the listed (N,K) / (N,M) instantiations')],
         'thorough': [krun(['c03::', 'c15::q::from_heap::', 'c15::t::from_heap::'], timeout=2400, bounds='N <= 8; more (N,K), (N,M) pairs; tuples to arity 12')],
     },
     'functions': ['GenericArrayIter::*', 'GenericArray::{generate,map,zip,fold,clone,from_array,into_array,try_from_iter,from_iter,try_boxed_from_iter,into_vec,into_boxed_slice,try_from_vec,try_from_boxed_slice}',
